@@ -210,7 +210,7 @@ OVERRIDES = {
     'navigation_wu': lambda r, n: ([matrix(r, n, False, False, False, True), matrix(r, n, False, False, False, True, dens=1.0)], {}),
     'retrieve_shortest_path': lambda r, n: ([0, n - 1, np.ones((n, n)), np.tile(np.arange(n), (n, 1))], {}),
     'pagerank_centrality': lambda r, n: ([matrix(r, n, False, True, False, True), 0.85], {'falff': r.choice((None, np.ones(n)))}),
-    'resource_efficiency_bin': lambda r, n: ([matrix(r, n, False, False, True, False, dens=0.7), 0.5], {}),
+    'resource_efficiency_bin': lambda r, n: _reseff(r, n),
     'rentian_scaling': lambda r, n: ([matrix(r, n, False, False, True, True), np.array([[r.uniform(0, 9) for _ in range(3)] for _ in range(n)]), 3], {}),
     'randomize_graph_partial_und': lambda r, n: (lambda: ([_ring(8, r), _mask(8, r), 1], {}))(),
     'makerandCIJdegreesfixed': lambda r, n: ([np.array([1, 2, 1, 2, 1]), np.array([2, 1, 2, 1, 1])], {}),
@@ -229,7 +229,7 @@ OVERRIDES = {
     'align_matrices': lambda r, n: ([matrix(r, n, False, False, False, True), matrix(r, n, False, False, False, True)], {'H': 20}),
     'reorder_mod': lambda r, n: ([matrix(r, n, False, False, False, True), labels(r, n)], {}),
     'backbone_wu': lambda r, n: ([matrix(r, n, False, False, False, True, dens=0.9), 2], {}),
-    'core_periphery_dir': lambda r, n: ([matrix(r, n, False, True, False, True)], {}),
+    'core_periphery_dir': lambda r, n: ([matrix(r, n, False, True, False, True)], ({'C0': np.array([r.randrange(2) for _ in range(n)])} if r.random() < 0.2 else {})),
     'search_information': lambda r, n: ([matrix(r, n, False, False, False, True, dens=0.9)], {'transform': r.choice((None, 'inv'))}),
     'distance_wei_floyd': lambda r, n: ([matrix(r, n, False, r.random() < 0.5, False, True)], {'transform': r.choice((None, 'inv', 'log'))}),
     'path_transitivity': lambda r, n: ([matrix(r, n, False, False, False, True, dens=0.9)], {'transform': r.choice((None, 'inv'))}),
@@ -244,6 +244,23 @@ OVERRIDES = {
     'null_model_dir_sign': lambda r, n: ([matrix(r, n, True, True, False, True, dens=0.8)], {'bin_swaps': 1, 'wei_freq': r.choice((0.3, 1))}),
     'threshold_proportional': lambda r, n: ([np.abs(matrix(r, n, False, r.random() < 0.5, False, True)), r.choice((0.2, 0.5, 1.0))], {'copy': r.random() < 0.5}),
 }
+
+
+def _reseff(rnd, n):
+    adj = matrix(rnd, n, False, False, True, False, dens=0.7)
+    kw = {}
+    x = rnd.random()
+    if x < 0.6:
+        # the optional pre-computed arguments (shortest path lengths, transition matrix) are caller-owned arrays too
+        k = adj.sum(axis=1, keepdims=True)
+        k[k == 0] = 1
+        kw['m'] = adj / k
+        if x < 0.3:
+            try:
+                kw['spl'] = np.array(bct.distance_wei_floyd(adj)[0], dtype=float)
+            except Exception:
+                pass
+    return [adj, rnd.choice((0.3, 0.5, 0.9))], kw
 
 
 def _distmat(rnd, n):
